@@ -84,6 +84,18 @@ theorem cells_cover (q : Qty) (hq : q.dim = 1 ∨ q.dim = 2) (w d : Nat) (hd : d
   exact cellsOf_cover q hq w d hd l (hc 0 l h.1) (aligned_of_valid q w d l h) x
 
 
+/-- The hierarchical cell list is a **normal form determined by the covered set**: two valid MOCs of
+    depth `d` covering the same indices have the same cells (and, by `cells_roundtrip`, two valid MOCs
+    with the same cells are equal: the cell view is injective). -/
+theorem cells_normal_form (q : Qty) (w d : Nat) (l1 l2 : List Rng) (h1 : Valid q w d l1) (h2 : Valid q w d l2)
+    (hs : ∀ x, mem x l1 ↔ mem x l2) : cellsOf q w d l1 = cellsOf q w d l2 := by
+  rw [Canon.ext h1.1 h2.1 hs]
+
+theorem cells_injective (q : Qty) (hq : q.dim = 1 ∨ q.dim = 2) (w d : Nat) (hd : d ≤ q.maxDepth w)
+    (l1 l2 : List Rng) (h1 : Valid q w d l1) (h2 : Valid q w d l2)
+    (hc : cellsOf q w d l1 = cellsOf q w d l2) : l1 = l2 := by
+  rw [← cells_roundtrip q hq w d hd l1 h1, ← cells_roundtrip q hq w d hd l2 h2, hc]
+
 /-! Non-vacuity -/
 example : (5 : Nat) < 12 * 4 ^ 0 ∧ (4 : Nat) ≤ 17 := by decide
 example : Params.hpx.dim = 1 ∨ Params.hpx.dim = 2 := by decide
